@@ -38,6 +38,10 @@ CLAIMED = {
          "Decides the structural conditions the CRC verdicts rest on for every path: every byte taken from the reader is fed to the running checksum, every integrity verdict is a zero-residue test on a fed hash (or a documented exemption edge), the three header layouts agree, the encoder hashes what it writes. Together with C14 and the CRC burst theorem this gives the detection clause on paper; the input-output statement itself is not observed.",
          "Trusted: io.ReadFull/binary.Read/io.CopyN/io.Reader contracts as summarised; CRC burst-error theorem. Not decided: the quantified corruption statement as an input-output fact; corruptions that alter which bytes are parsed are argued on paper only.",
          "DESIGN.md 4 C04"),
+ "C10": ("other", "who-reads census, exact/capped read shape rules (min-phi recognition, edge-derived constant sets), counter pairing, single-store rule for the limit, loop-exit dominance, fresh-decoder-in-loop rule (SSA)",
+         "Decides the framing discipline on every path and for every chunking: reads are exact or capped by the remaining data size, the consumed-byte counter is advanced exactly with the read position, success requires n >= limit then a 2-byte CRC read, chained files get a fresh decoder. Chunking cannot matter because no rule depends on how many bytes a Read returns.",
+         "Trusted: io.ReadFull/binary.Read/io.CopyN/io.Reader contracts. Not decided: equality of chained results with stand-alone decoding (paper consequence with C08); n <= limit is implied by cap + counting but not computed.",
+         "DESIGN.md 4 C10"),
 }
 
 NOT_APPLICABLE = {
